@@ -255,9 +255,9 @@ Qed.
 Print Assumptions numbersdirect_stream_foreign.
 
 (* ------------------------------------------------------------------ which names are foreign *)
-(* a member has the shape  <fixed>_ r <digit> <one more byte> ... *)
+(* a member has the shape  <fixed>_ r <one or more digits> <rest>  (the rest: restart part, suffix, ".gz") *)
 Theorem numd_member_shape c n : numd_member c n = true ->
-  exists d x y, is_digit d = true /\ n = under (fixed0 c) ++ r_char :: d :: x :: y.
+  exists ds y, ds <> [] /\ all_digits ds = true /\ n = under (fixed0 c) ++ r_char :: ds ++ y.
 Proof.
   unfold numd_member. intros H. apply orb_true_iff in H. destruct H as [H|H]; eapply qf_num_shape; exact H.
 Qed.
@@ -265,7 +265,7 @@ Qed.
 Corollary foreign_no_prefix_d c n : is_prefix (fixed0 c) n = false -> numd_member c n = false.
 Proof.
   intros Hp. destruct (numd_member c n) eqn:E; [|reflexivity]. exfalso.
-  apply numd_member_shape in E. destruct E as [d [x [y [_ ->]]]].
+  apply numd_member_shape in E. destruct E as [ds [y [_ [_ ->]]]].
   rewrite is_prefix_under in Hp. discriminate.
 Qed.
 
@@ -277,11 +277,14 @@ Definition exdf_c : config :=
      c_append := true; c_cap := Some 3%nat; c_rot := Some (CSize 3, NNumbersDirect, KNever); c_utc := false;
      c_symlink := false; c_bg := false; c_async := false; c_start := None |}.
 
-(* the near misses of NumForeign.ex_foreign, and the rCURRENT file *)
+(* the near misses of NumForeign.ex_foreign (among them the names that the number filter accepted before its repair: a
+   letter or a word behind the number, a time-stamp infix), and the rCURRENT file *)
 Definition exdf_foreign : list (bytes * bytes) :=
   [ (bs "a_r00001.log.bak", bs "w"); (bs "a_rx.log", bs "x"); (bs "b.log", bs "y"); (bs "a_r00001.txt", bs "z");
-    (bs "a_r1.log", bs "u"); (bs "ax_r00001.log", bs "v"); (bs "a_r00001", bs "t"); (bs "a_rCURRENT.log.gz", bs "s");
-    (bs "a.log", bs "q"); (bs "a_rCURRENT.log", bs "p") ].
+    (bs "ax_r00001.log", bs "v"); (bs "a_r00001", bs "t"); (bs "a_rCURRENT.log.gz", bs "s");
+    (bs "a.log", bs "q"); (bs "a_rCURRENT.log", bs "p");
+    (bs "a_r1x.log", bs "1"); (bs "a_r1backup.log", bs "2"); (bs "a_r00001x.log", bs "3");
+    (bs "a_r2024-02-29_23-59-58.log", bs "4"); (bs "a_r7x.log", bs "5") ].
 
 Example foreign_hypotheses_d :
   numdcfg exdf_c (CSize 3) /\ Forall basic_op ex_ops /\ NoDup (List.map fst exdf_foreign)
@@ -311,9 +314,13 @@ Example foreign_instance_dir_d :
       (bs "a_r00001.log", 0%N, bs "ef");
       (bs "a_r00001.log.bak", 0%N, bs "w");
       (bs "a_r00001.txt", 0%N, bs "z");
+      (bs "a_r00001x.log", 0%N, bs "3");
       (bs "a_r00002.log", 0%N, bs "ghij");
       (bs "a_r00003.log", 0%N, bs "k");
-      (bs "a_r1.log", 0%N, bs "u");
+      (bs "a_r1backup.log", 0%N, bs "2");
+      (bs "a_r1x.log", 0%N, bs "1");
+      (bs "a_r2024-02-29_23-59-58.log", 0%N, bs "4");
+      (bs "a_r7x.log", 0%N, bs "5");
       (bs "a_rCURRENT.log", 0%N, bs "p");
       (bs "a_rCURRENT.log.gz", 0%N, bs "s");
       (bs "a_rx.log", 0%N, bs "x");
@@ -324,15 +331,34 @@ Example foreign_instance_dir_d :
       (bs "a_r00003.log", 0%N, bs "k") ].
 Proof. vm_compute. split; reflexivity. Qed.
 
-(* The family test is wider than "r and five digits" here, too: "a_r7x.log" is accepted by the number filter.  It cannot
-   be read as a number and counts as index 0: a writer that finds it starts with r00001 (without append; with append
-   it would look for r00000, not find it, and start with r00001 as well).  Such a name is not foreign. *)
-Example near_miss_is_member_d :
-  numd_member exdf_c (bs "a_r7x.log") = true
+(* BEFORE THE REPAIR of the number filter the family test was wider than "r and a number" here, too: "a_r7x.log" was
+   accepted by the number filter (the former counterexample near_miss_is_member_d); it could not be read as a number and
+   counted as index 0: a writer that found it started with r00001.
+   NOW such a name is foreign: numd_member rejects it, the run with the file in the directory starts with r00000 as the run
+   in the empty directory does, the file stays what it was. *)
+Example near_miss_not_member_d :
+  numd_member exdf_c (bs "a_r7x.log") = false
+  /\ numd_member exdf_c (bs "a_r1x.log") = false
+  /\ numd_member exdf_c (bs "a_r1backup.log") = false
+  /\ numd_member exdf_c (bs "a_r00001x.log") = false
+  /\ numd_member exdf_c (bs "a_r2024-02-29_23-59-58.log") = false
   /\ ex_snap (fst (run (sys0f 0 0 [(bs "a_r7x.log", bs "w")]) (OStart exdf_c :: ex_ops ++ [OStop])))
-     = [ (bs "a_r00001.log", 0%N, bs "abcd"); (bs "a_r00002.log", 0%N, bs "ef"); (bs "a_r00003.log", 0%N, bs "ghij");
-         (bs "a_r00004.log", 0%N, bs "k"); (bs "a_r7x.log", 0%N, bs "w") ].
-Proof. split; vm_compute; reflexivity. Qed.
+     = [ (bs "a_r00000.log", 0%N, bs "abcd"); (bs "a_r00001.log", 0%N, bs "ef"); (bs "a_r00002.log", 0%N, bs "ghij");
+         (bs "a_r00003.log", 0%N, bs "k"); (bs "a_r7x.log", 0%N, bs "w") ]
+  /\ List.map (strip_obs [bs "a_r7x.log"]) (snd (run (sys0f 0 0 [(bs "a_r7x.log", bs "w")]) (OStart exdf_c :: ex_ops ++ [OStop])))
+     = snd (run (sys0 0 0) (OStart exdf_c :: ex_ops ++ [OStop])).
+Proof. vm_compute. repeat split; reflexivity. Qed.
+
+(* still "not foreign although this writer did not write it", legitimately: names that follow the pattern - a number of
+   any length ("a_r7.log": one digit, which the old filter rejected for being shorter than three bytes).  It counts as
+   index 7; the writer (with append) looks for a_r00007.log, does not find it and goes on with r00008. *)
+Example short_number_is_member_d :
+  numd_member exdf_c (bs "a_r7.log") = true
+  /\ numd_member exdf_c (bs "a_r7.log.gz") = true
+  /\ ex_snap (fst (run (sys0f 0 0 [(bs "a_r7.log", bs "w")]) (OStart exdf_c :: ex_ops ++ [OStop])))
+     = [ (bs "a_r00008.log", 0%N, bs "abcd"); (bs "a_r00009.log", 0%N, bs "ef"); (bs "a_r00010.log", 0%N, bs "ghij");
+         (bs "a_r00011.log", 0%N, bs "k"); (bs "a_r7.log", 0%N, bs "w") ].
+Proof. vm_compute. repeat split; reflexivity. Qed.
 
 (* the stream theorem applied: the family files hold the bytes written *)
 Example stream_instance_d :
